@@ -2,7 +2,7 @@ from __future__ import annotations
 
 from typing import Awaitable, Callable, Optional, Tuple, Union
 
-import h2.exceptions
+from h2.exceptions import ProtocolError as H2ProtocolError
 
 from .h2 import H2Protocol
 from .h11 import H2CProtocolRequiredError, H2ProtocolAssumedError, H11Protocol
@@ -95,7 +95,7 @@ class ProtocolWrapper:
             )
             try:
                 await self.protocol.initiate(error.headers, error.settings)
-            except (ValueError, h2.exceptions.ProtocolError):
+            except (ValueError, H2ProtocolError):
                 # The HTTP2-Settings header is not a valid base64
                 # encoded SETTINGS payload, nothing can be salvaged.
                 await self.send(Closed())
